@@ -25,10 +25,18 @@ class FlatArr:
     """real array of any rank given by its flattened entry function"""
     is_array = True
 
-    def __init__(self, size, f):
+    inner = 1  # product of the trailing axes' sizes (1 = rank-1 array); set per configuration
+
+    def __init__(self, size, f, inner=None):
         self.n, self.f = size, f
+        if inner is not None:
+            self.inner = inner
 
     def __getitem__(self, idx):
+        if isinstance(idx, slice) and idx.start is None and idx.stop is None and idx.step == -1:
+            # reversal of the LEADING axis only: flat index i = a * inner + b  ->  (n0 - 1 - a) * inner + b
+            m = self.inner
+            return FlatArr(self.n, lambda i: self.f((self.n / m - 1 - i / m) * m + i % m), m)
         if isinstance(idx, SymSeq) and getattr(idx, "unravel_of", None) is not None:
             flat = idx.unravel_of
             return FlatArr(flat.n, lambda i: self.f(flat.f(i)))
@@ -176,7 +184,7 @@ def _permute(ctx, it, concrete_rank):
         return
     H = rng + c0 + t3
     okv = all(isinstance(v, FlatArr) for v in (pt.value, pi.value, ptl.value[0], pil.value[0]))
-    ctx.oblige("C07/Permute/struct/gathers", okv, [], props, kind="struct", fn=Q + ".transform")
+    ctx.oblige("C07/Permute/struct/gathers", okv, [], props, kind="applicability", fn=Q + ".transform")
     if not okv:
         return
     T, Iv = pt.value, pi.value
@@ -196,30 +204,49 @@ def _permute(ctx, it, concrete_rank):
 
 @family("simple/Flip", ["C01", "C02", "C07"])
 def flip(ctx):
-    it = ctx.interp
+    """jnp.flip with no axis reverses ALL axes: in flattened (C-order) terms the whole entry sequence.  Two configurations:
+    rank 1 (inner size 1) and an array whose trailing axes hold 2 entries per leading index (a leading-axis-only reversal differs)."""
+    for inner in (1, 2):
+        _flip(ctx, ctx.new_interp(), inner)
+
+
+def _flip(ctx, it, inner):
     props = ["C01", "C02", "C07"]
     Q = "flowjax.bijections.utils.Flip"
-    it.lib.overrides["jax.numpy.flip"] = lambda a, axis=None: FlatArr(a.n, lambda i: a.f(a.n - 1 - i))
+    tag = "" if inner == 1 else f"[inner={inner}]"
+    it.lib.overrides["jax.numpy.flip"] = lambda a, axis=None: FlatArr(a.n, lambda i: a.f(a.n - 1 - i), a.inner)
     cls = it.repo_class(Q)
     o = Obj(cls, shape=("any",))
     X = z3.Function("x", I, R)
-    x = FlatArr(n, lambda i: X(i))
-    rng = [n >= 1, i_ >= 0, i_ < n]
+    n0 = z3.Int("leading_size")
+    x = FlatArr(n, lambda i: X(i), inner)
+    rng = [n >= 1, i_ >= 0, i_ < n, n == n0 * inner, n0 >= 1]
     rp = dict(kind="simple", cls="Flip", vars={})
     res = {}
     for meth in ("transform", "inverse", "transform_and_log_det", "inverse_and_log_det"):
         ps = it.explore(lambda meth=meth: method(cls, meth)(o, x, None))
-        res[meth] = single(ps, ctx, f"C01/Flip.{meth}/struct/straight_line", props, f"{Q}.{meth}")
+        res[meth] = single(ps, ctx, f"C01/Flip{tag}.{meth}/struct/straight_line", props, f"{Q}.{meth}")
     if None in res.values():
         return
     T, Iv = res["transform"].value, res["inverse"].value
-    ctx.oblige("C07/Flip.transform/post/fwd", T.f(i_) == X(n - 1 - i_), rng, props, fn=Q + ".transform", replay=rp)
-    ctx.oblige("C01/Flip/rt1", z3.substitute(Iv.f(i_), (X(n - 1 - i_), T.f(n - 1 - i_))) == X(i_), rng, props, fn=Q + ".inverse", replay=rp)
-    ctx.oblige("C01/Flip/rt2", z3.substitute(T.f(i_), (X(n - 1 - i_), Iv.f(n - 1 - i_))) == X(i_), rng, props, fn=Q + ".transform", replay=rp)
-    ctx.oblige("C01/Flip/same_fwd", res["transform_and_log_det"].value[0].f(i_) == T.f(i_), rng, props, fn=Q + ".transform_and_log_det", replay=rp)
-    ctx.oblige("C01/Flip/same_inv", res["inverse_and_log_det"].value[0].f(i_) == Iv.f(i_), rng, props, fn=Q + ".inverse_and_log_det", replay=rp)
+    ctx.oblige(f"C07/Flip{tag}.transform/post/fwd", T.f(i_) == X(n - 1 - i_), rng, props, fn=Q + ".transform", replay=rp, note="every axis is reversed: entry i of the flattened result is entry size-1-i of the flattened input")
+    # round trips: substitute the other method's entry function for X at the (single) index it is read at
+    def compose(outer, inner_arr):
+        Y = z3.Function("y_tmp", I, R)
+        e = outer.f(i_)
+        reads = [a for a in _apps(X, e)]
+        return z3.substitute(e, *[(a, inner_arr.f(a.arg(0))) for a in reads])
+    ctx.oblige(f"C01/Flip{tag}/rt1", compose(Iv, T) == X(i_), rng, props, fn=Q + ".inverse", replay=rp)
+    ctx.oblige(f"C01/Flip{tag}/rt2", compose(T, Iv) == X(i_), rng, props, fn=Q + ".transform", replay=rp)
+    ctx.oblige(f"C01/Flip{tag}/same_fwd", res["transform_and_log_det"].value[0].f(i_) == T.f(i_), rng, props, fn=Q + ".transform_and_log_det", replay=rp)
+    ctx.oblige(f"C01/Flip{tag}/same_inv", res["inverse_and_log_det"].value[0].f(i_) == Iv.f(i_), rng, props, fn=Q + ".inverse_and_log_det", replay=rp)
     for nm in ("transform_and_log_det", "inverse_and_log_det"):
-        ctx.oblige(f"C02/Flip.{nm}/ld_is_zero", to_real(lift(res[nm].value[1])) == 0, rng, props, fn=f"{Q}.{nm}", replay=rp)
+        ctx.oblige(f"C02/Flip{tag}.{nm}/ld_is_zero", to_real(lift(res[nm].value[1])) == 0, rng, props, fn=f"{Q}.{nm}", replay=rp)
+
+
+def _apps(decl, e):
+    from fjvc.core import apps_of
+    return apps_of(decl, [e])
 
 
 @family("simple/AdditiveCondition", ["C01", "C02", "C07"])
